@@ -130,20 +130,33 @@ H = {
 }
 TOTALITY = [h for h, d in H.items() if d[1] in (T_, C_)] + ["lengths_a", "lengths_b", "list_badlen"]
 
-# quick tier: everything on ed25519 except the two slowest; the suite-specific code of the other suites
-# (point_decode / point_encode / scalar_decode / scalar_encode / scalar_encode_le) through a representative subset
+WIRE_ALL = [h for h, d in H.items() if d[1] == W]
+# quick tier: the shared macro body is exercised on ed25519 (representative subset, sized for the 5-minute
+# budget on a loaded machine); the suite-specific code of every other suite (point_decode / point_encode /
+# scalar_decode / scalar_encode) through the Commitment wire-format harness
 QUICK = {
-    "ed25519": ["spec_nonce", "spec_sigshare", "spec_groupsk", "spec_grouppk", "spec_signerpk", "spec_commitment",
-                "spec_signature", "spec_keyshare", "rt_scalars", "rt_points", "rt_keys", "lengths_a", "lengths_b",
-                "ident0", "clist2", "list_badlen", "vlist", "vshare_anylist", "vshare_sorted", "sign_total",
+    "ed25519": ["spec_nonce", "spec_signerpk", "spec_commitment", "spec_signature", "spec_keyshare", "rt_points",
+                "lengths_a", "lengths_b", "ident0", "clist2", "vshare_anylist", "vshare_sorted", "sign_total",
                 "vsplit_total", "vsplit_empty"],
-    "ristretto255": ["spec_commitment", "spec_groupsk"],
-    "ed448": ["spec_commitment", "spec_groupsk"],
-    "p256": ["spec_commitment", "spec_groupsk"],
-    "secp256k1": ["spec_commitment", "spec_groupsk"],
+    "ristretto255": ["spec_commitment"],
+    "ed448": ["spec_commitment"],
+    "p256": ["spec_commitment"],
+    "secp256k1": ["spec_commitment"],
+}
+# thorough tier: everything on ed25519; all wire formats on every suite; the totality harnesses on one suite of
+# each codec family (the protocol code is one macro body shared by all suites), the two known-defect harnesses
+# on every suite
+_CORE_T = ["vshare_anylist", "vshare_sorted", "sign_total", "vsplit_total", "vsplit_empty", "verify_shortlists", "choose2"]
+THOROUGH = {
+    "ed25519": list(H),
+    "ristretto255": WIRE_ALL + ["vshare_anylist", "vsplit_empty"],
+    "ed448": WIRE_ALL + _CORE_T,
+    "p256": WIRE_ALL + _CORE_T + ["assemble_sorted"],
+    "secp256k1": WIRE_ALL + ["vshare_anylist", "vsplit_empty"],
 }
 QUICK_TOTALITY = {"ed25519": ["vshare_anylist", "vshare_sorted", "sign_total", "vsplit_total", "vsplit_empty",
                               "lengths_a", "lengths_b"]}
+THOROUGH_TOTALITY = dict((s, [h for h in hs if h in TOTALITY]) for s, hs in THOROUGH.items())
 CAP = {"quick": 270, "thorough": 1800}
 
 STUBS = {
@@ -292,41 +305,95 @@ def _crashed(r):
     return (r.status == "failure" and not r.failed) or r.status in ("error", "oom")
 
 
+def _pipeline(sc, base, names, cap, jobs):
+    """run cover-free harnesses, retry crashes once, replay every failure natively"""
+    res = run_harnesses(sc, [(n, cap) for n, _ in names], mem_gb=12, jobs=jobs, extra_args=KANI_ARGS)
+    crashed = [n for n, _ in names if _crashed(res[n])]
+    if crashed:
+        log("[C15] retrying %d crashed run(s): %s" % (len(crashed), ", ".join(crashed)))
+        res.update(run_harnesses(sc, [(n, cap) for n in crashed], mem_gb=12, jobs=jobs, extra_args=KANI_ARGS))
+    for n, suite in names:
+        r = res[n]
+        if r.status == "failure" and r.playback:
+            kreplay(sc, r, base[suite])
+    return res
+
+
+def _bg(conn, sc, base, names, cap, jobs):
+    try:
+        conn.send(_pipeline(sc, base, names, cap, jobs))
+    except BaseException as e:       # noqa
+        conn.send({"__error__": "%s: %s" % (type(e).__name__, e)})
+    conn.close()
+
+
 def _run(tier, items):
     """items: list of (suite, harness suffix).  Returns (obligations, machinery error or None)"""
+    import multiprocessing as mp
     cap = CAP["quick" if tier == "quick" else "thorough"]
     if not items:
         return [], None
-    suites = sorted(set(s for s, _ in items), key=ALL_SUITES.index)
-    sc, base = _prepare(suites)
-    # harnesses that carry a known defect fail on the unchanged tree: their cover-free twin is run right away
     expect = [(s, h) for s, h in items if H[h][5]]
     normal = [(s, h) for s, h in items if not H[h][5]]
-    todo = [(hname(s, h, True), cap) for s, h in expect] + [(hname(s, h), cap) for s, h in normal]
-    res = run_harnesses(sc, todo, mem_gb=12, jobs=8, extra_args=KANI_ARGS)
-    # CBMC killed / crashed (VERIFICATION FAILED without any failed check, or an error exit): one retry
-    crashed = [(n, c) for n, c in todo if _crashed(res[n])]
-    if crashed:
-        log("[C15] retrying %d crashed run(s): %s" % (len(crashed), ", ".join(n for n, _ in crashed)))
-        res.update(run_harnesses(sc, crashed, mem_gb=12, jobs=8, extra_args=KANI_ARGS))
+    order = lambda its: sorted(set(s for s, _ in its), key=ALL_SUITES.index)
+    res, proc, scx = {}, None, None
+    if expect:
+        # harnesses that carry a known defect fail on the unchanged tree: their cover-free twin is run right
+        # away and replayed natively, in a background process with its own scratch copy (the replay appends
+        # the playback test to the harness file), while the other harnesses run
+        scx, basex = _prepare(order(expect))
+        jx = 2 if normal else 8
+        ctx = mp.get_context("fork")
+        pa, pb = ctx.Pipe(False)
+        proc = ctx.Process(target=_bg, args=(pb, scx, basex, [(hname(s, h, True), s) for s, h in expect], cap, jx))
+        proc.start()
+        pb.close()
+    sc = base = None
+    if normal:
+        sc, base = _prepare(order(normal))
+        todo = [(hname(s, h), cap) for s, h in normal]
+        jn = 6 if expect else 8
+        res.update(run_harnesses(sc, todo, mem_gb=12, jobs=jn, extra_args=KANI_ARGS))
+        crashed = [(n, c) for n, c in todo if _crashed(res[n])]
+        if crashed:
+            log("[C15] retrying %d crashed run(s): %s" % (len(crashed), ", ".join(n for n, _ in crashed)))
+            res.update(run_harnesses(sc, crashed, mem_gb=12, jobs=jn, extra_args=KANI_ARGS))
+    if proc is not None:
+        try:
+            got = pa.recv() if pa.poll(cap * 3 + 1200) else {"__error__": "background pipeline timed out"}
+        except EOFError:
+            got = {"__error__": "background pipeline died"}
+        proc.join(10)
+        if "__error__" in got:
+            log("[C15] background pipeline: %s" % got["__error__"])
+        else:
+            res.update(got)
     # an expected-failure harness that passes (library fixed): run its covered variant for the vacuity guards
-    redo = [(s, h) for s, h in expect if res[hname(s, h, True)].status == "success"]
+    redo = [(s, h) for s, h in expect if hname(s, h, True) in res and res[hname(s, h, True)].status == "success"]
     if redo:
+        if sc is None or any(s not in base for s, _ in redo):
+            if sc is not None:
+                sc.remove()
+            sc, base = _prepare(order(normal + redo))
         res.update(run_harnesses(sc, [(hname(s, h), cap) for s, h in redo], mem_gb=12, jobs=8, extra_args=KANI_ARGS))
-    # a failing covered harness: run the cover-free twin to obtain the playback of the FAILING check
+    # a failing covered harness: run the cover-free twin to obtain the playback of the FAILING check, replay it
     fails = [(s, h) for s, h in normal + redo if res[hname(s, h)].status == "failure"]
     if fails:
-        res.update(run_harnesses(sc, [(hname(s, h, True), cap) for s, h in fails], mem_gb=12, jobs=8,
-                                 extra_args=KANI_ARGS))
+        res.update(_pipeline(sc, base, [(hname(s, h, True), s) for s, h in fails], cap, 8))
     obs, merr = [], None
     for s, h in items:
         rc = res.get(hname(s, h))           # covered run (None for an expected failure that still fails)
         rn = res.get(hname(s, h, True))     # cover-free run (None when the covered run did not fail)
-        r = rc if (rc is not None and (rc.status != "failure" or rn is None)) else rn
         ob = _mk_ob(s, h)
+        if rc is None and rn is None:
+            ob.unknown("not run (background pipeline failed)", "kani", 0)
+            obs.append(ob)
+            continue
+        r = rc if (rc is not None and (rc.status != "failure" or rn is None)) else rn
         secs = (rc.seconds if rc else 0) + (rn.seconds if rn else 0)
-        log("[C15] %-13s %-18s %-8s %6.1fs covers=%s %s" % (s, h, r.status, secs, rc.covers if rc else "-",
-                                                          "; ".join(f.split(" | ")[0] for f in r.failed[:2])))
+        log("[C15] %-13s %-18s %-8s %6.1fs covers=%s replayed=%s %s"
+            % (s, h, r.status, secs, rc.covers if rc else "-", r.replayed,
+               "; ".join(f.split(" | ")[0] for f in r.failed[:2])))
         if r.status == "success" and r is rc:
             if r.unsat_covers or r.covers[0] != r.covers[1]:
                 ob.unknown("vacuity guard not reached: %s" % r.unsat_covers[:3], "kani", secs)
@@ -334,13 +401,12 @@ def _run(tier, items):
             else:
                 ob.ok("kani/cbmc+cadical", secs)
         elif r.status == "failure" and r is rn:
-            rep = kreplay(sc, r, base[s]) if r.playback else None
-            if rep is True:
+            if r.replayed is True:
                 ob.fail({"key": _key_for(s, h, r), "suite": s, "harness": hname(s, h), "template": h,
                          "failed_checks": r.failed[:8], "playback": r.playback}, "kani+native playback", secs)
             else:
                 why = "no playback for the failing check" if not r.playback else \
-                    "counterexample lives only under a stub / does not reproduce natively (%s)" % rep
+                    "counterexample lives only under a stub / does not reproduce natively (%s)" % r.replayed
                 ob.unknown("%s: %s" % (why, "; ".join(f.split(" | ")[0] for f in r.failed[:3])), "kani", secs)
         elif rc is not None and rc.status == "failure":
             # covered run failed but the cover-free twin did not fail: report what happened to the twin
@@ -349,14 +415,16 @@ def _run(tier, items):
         else:
             ob.unknown("%s: %s" % (r.status, r.log_tail[-240:].replace("\n", " | ")), "kani", secs)
         obs.append(ob)
-    sc.remove()
+    for x in (sc, scx):
+        if x is not None:
+            x.remove()
     return obs, merr
 
 
-def _select(tier, only, table_quick, hs_all):
+def _select(tier, only, table_quick, table_thorough):
     items = []
     for s in ALL_SUITES:
-        hs = table_quick.get(s, []) if tier == "quick" else hs_all
+        hs = (table_quick if tier == "quick" else table_thorough).get(s, [])
         for h in hs:
             if only and not any(_match(o, s, h) for o in only):
                 continue
@@ -374,14 +442,14 @@ def _match(tok, suite, h):
 
 def totality_obligations(tier):
     """the panic-freedom obligations only (for C19)"""
-    items = _select(tier, None, QUICK_TOTALITY, TOTALITY)
+    items = _select(tier, None, QUICK_TOTALITY, THOROUGH_TOTALITY)
     obs, _ = _run(tier, items)
     return obs
 
 
 def run(tier, only=None):
     t0 = time.time()
-    items = _select(tier, only, QUICK, list(H))
+    items = _select(tier, only, QUICK, THOROUGH)
     obs, merr = _run(tier, items)
     return finish(PID, tier, obs, t0,
                   functions_encoded=sorted(set(fn for o in obs for fn in o.functions)),
@@ -406,4 +474,6 @@ def replay(path):
         suite, role = ob["name"].split(":", 1)
         h = [k for k, v in H.items() if v[0] == role][0]
     log("[C15] re-running %s (%s) on the current tree" % (ob["name"], hname(suite, h)))
+    global THOROUGH
+    THOROUGH = dict((s, list(H)) for s in ALL_SUITES)
     return run("thorough", only=["%s@%s" % (h, suite)])
